@@ -3,7 +3,8 @@ import gen, t2t, impl, corr
 
 OBLIGATIONS = ['Yalafi.C07_scan_total', 'Yalafi.C07_removeLines_total', 'Yalafi.C07_ml_total', 'Yalafi.C07_tex2txt_no_crash', 'Yalafi.C07_tex2txt_no_crash_current',
                'Yalafi.C07_no_opaque_module_current', 'Yalafi.cleveref_translated_current', 'Yalafi.readSed_replaces_tables', 'Yalafi.cref_example_eval', 'Yalafi.cref_stale_example_eval', 'Yalafi.cref_nopoorman_example_eval',
-               'Yalafi.C07_no_capfirst_crash', 'Yalafi.C07_tblOk_current', 'Yalafi.C07_no_capfirst_crash_current', 'Yalafi.C07_tex2txt_crash_only_opaque', 'Yalafi.C07_tex2txt_crash_only_opaque_current', 'Yalafi.C07_capFirst_total']
+               'Yalafi.C07_no_capfirst_crash', 'Yalafi.C07_tblOk_current', 'Yalafi.C07_no_capfirst_crash_current', 'Yalafi.C07_tex2txt_crash_only_opaque', 'Yalafi.C07_tex2txt_crash_only_opaque_current', 'Yalafi.C07_capFirst_total',
+               "Yalafi.C07_tex2txt_no_opaque_crash", "Yalafi.C07_tex2txt_never_crashes", "Yalafi.C07_noOpaque_current", "Yalafi.C07_tex2txt_never_crashes_current", "Yalafi.C07_tex2txt_outcome_current", "Yalafi.C07_noOpaque_of_facts"]
 
 DOCUMENTED_FATAL = ("no environment for '$$'", 'is not an EquEnv')
 
@@ -54,6 +55,16 @@ def run(ctx):
             if t in NUMTAILS or rng.random() < ctx.scale(0.25, 1.0):
                 cases.append({'src': rng.choice(['', 'A ', '\\begin{itemize}']) + nm + t, 'opts': {'pack': '*', 'lang': rng.choice(['', 'de', 'ru'])},
                               'multi': rng.random() < 0.2, 'kind': 'trunc', 'words': None, 'files': {'f1.tex': '\\footnote{x}\\newcommand{\\q}{Q}'}})
+    # \def with every shape of parameter text (undelimited, delimited, digits out of order, ## , none) x body references from #0
+    # to #9 and beyond: a reference the definition does not declare must end in the error mark, never in an exception
+    ptexts = ['', '#1', '#1#2', '[#1]', '(#1,#2)', '#1/#2.', '#1.', '.#1', '#2', '#1#3', '#1#1', '[#1][#2][#3]', '#', '##1', '#1 #2', '#9',
+              '#1#2#3#4#5#6#7#8#9', '[#1', '#1]', '{#1}', '#\u00b2', '#1\\x#2']
+    bodies = ['#%d' % k for k in range(0, 10)] + ['#1 and #3', '#2#1', '##', '#', '#10', '{#4}', '\\textbf{#2}', '$#3$', '#1#2#3#4#5#6#7#8#9', '']
+    for pt in ptexts:
+        for bd in bodies:
+            for use in ('', ' \\q[a](b,c)1/2. d', ' \\q{a}{b}{c}'):
+                cases.append({'src': 'Qa\n\\def\\q%s{%s}\nQb%s' % (pt, bd, use), 'opts': {'pack': '*', 'lang': ''}, 'multi': False,
+                              'kind': 'trunc', 'words': None})
     # every prefix of a small displayed equation, for every equation environment (a text that ends right behind & or \\\\)
     for env in gen.EQ_ENVS + ['\\[', '$$']:
         op, cl = ('\\begin{%s}' % env + ('{2}' if env.startswith('alignat') else ''), '\\end{%s}' % env) if env not in ('\\[', '$$') else (env, '\\]' if env == '\\[' else '$$')
